@@ -36,8 +36,39 @@ def _alarm(signum, frame):
     raise CaseTimeout()
 
 
+_EXECUTED = set()
+_MON = {"on": False}
+
+
+def _start_monitor():
+    """measured, not declared: every function of /repo's sources that actually ran in this worker (natively on symbolic arrays,
+    or as the if-converted form of a kernel) is recorded through sys.monitoring and listed in the evidence file"""
+    if _MON["on"] or not hasattr(sys, "monitoring"):
+        return
+    mon = sys.monitoring
+    root = os.environ.get("GBVERIF_REPO", "/repo").rstrip("/") + "/"
+    try:
+        mon.use_tool_id(mon.PROFILER_ID, "gbverif")
+    except ValueError:
+        return
+
+    def on_start(code, offset):
+        fn = code.co_filename
+        if fn.startswith("<ifconv "):
+            fn = fn[len("<ifconv "):].split(":")[0]
+        if fn.startswith(root):
+            fn = fn[len(root):]
+        if fn.startswith("groupby_lib/") and not code.co_qualname.endswith(("<module>", "<lambda>", "<listcomp>", "<genexpr>")):
+            _EXECUTED.add(f"{fn}:{code.co_qualname}")
+        return mon.DISABLE
+    mon.register_callback(mon.PROFILER_ID, mon.events.PY_START, on_start)
+    mon.set_events(mon.PROFILER_ID, mon.events.PY_START)
+    _MON["on"] = True
+
+
 def _worker(args):
     prop, case = args
+    _start_monitor()
     from .values import Unsupported, OutsideModel
     from .shadow import MissingAnchor
     mod = importlib.import_module(f"gbverif.props.{prop.lower()}")
@@ -50,7 +81,11 @@ def _worker(args):
         with open(os.environ["GBVERIF_TRACE"] + f".{os.getpid()}", "a") as f:
             f.write(f"{time.time():.1f} START {res['name']}\n")
     try:
+        fresh = _E is None
         E = engine()
+        if fresh and _MON["on"]:
+            _EXECUTED.clear()                       # import-time execution of the sources (decorators, class bodies) does not count
+            sys.monitoring.restart_events()
         r = mod.run_case(E, case)
         res.update(r)
     except CaseTimeout:
@@ -65,6 +100,7 @@ def _worker(args):
     finally:
         signal.alarm(0)
     res["wall_s"] = round(time.time() - t0, 3)
+    res["executed"] = sorted(_EXECUTED)
     try:
         from .harness import CROSS
         res["cross"] = {"checked": CROSS["checked"], "agree": CROSS["agree"], "cvc5_unknown": CROSS["cvc5_unknown"], "disagree": list(CROSS["disagree"])}
@@ -279,6 +315,7 @@ def write_evidence(prop, tier, seed, mod, results, tv, wall, n_viol, known_hits,
             "cases_inconclusive": sum(1 for r in results if r["verdict"] in ("unknown", "inconclusive", "error")),
             "witnesses": {k: bool(v) for k, v in sorted(wit.items())},
             "functions_encoded": funcs,
+            "repo_functions_executed_during_this_run": sorted({x for r in results for x in r.get("executed", [])}),
             "bounds": meta.get("bounds", {}).get(tier, {}),
             "enumerated": meta.get("enumerated", []),
             "symbolic": meta.get("symbolic", []),
